@@ -1,3 +1,4 @@
+import Props.C06
 import Props.C12
 import Props.C14
 import Props.C18
